@@ -25,6 +25,7 @@ import (
 	"io"
 	"os"
 	"os/exec"
+	"regexp"
 	"strconv"
 	"strings"
 	"sync/atomic"
@@ -36,7 +37,27 @@ import (
 	"verifharness/kit"
 )
 
-const edgeCap = 1000 // defaultEdgeBufferSize (edge.go); the generator only uses it to place boundaries
+// edgeCap is defaultEdgeBufferSize, read from edge.go of the checkout under test (VERIF_REPO); the generator
+// uses it to place the numbers of points around the capacities and to keep the writer from blocking.
+var edgeCap = readEdgeCap()
+
+func readEdgeCap() int {
+	repo := os.Getenv("VERIF_REPO")
+	if repo == "" {
+		repo = "/repo"
+	}
+	b, err := os.ReadFile(repo + "/edge.go")
+	if err == nil {
+		if m := regexp.MustCompile(`(?m)^\s*defaultEdgeBufferSize\s*=\s*(\d+)\s*$`).FindSubmatch(b); m != nil {
+			if v, err := strconv.Atoi(string(m[1])); err == nil && v > 0 {
+				return v
+			}
+		}
+	}
+	fmt.Fprintln(os.Stderr, "c07: cannot read defaultEdgeBufferSize from", repo+"/edge.go")
+	os.Exit(2)
+	return 0
+}
 
 var caseSeq int64
 
